@@ -233,6 +233,36 @@ func TestC11(t *testing.T) {
 	enum("enum-bool", gen.BoolAlphabet(), focusLen+1)
 	enum("enum-unary", gen.UnaryAlphabet(), focusLen+1)
 
+	// size sweep: the same shape at every size (limits, thresholds, off-by-one)
+	maxN := 150
+	if cfg.Thorough() {
+		maxN = 1200
+	}
+	st.Stream("size-sweep", true, fmt.Sprintf("n = 1..%d juxtaposed bare terms, n ORed bare terms, a bare term under n nested NOT( ), n nested groups", maxN))
+	wa, kor, knot := gen.Term(gen.Word("w")), gen.Kw("OR", "OR"), gen.Kw("NOT", "NOT")
+	for n := 1; n <= maxN; n++ {
+		if n%cfg.NShards != cfg.Shard {
+			continue
+		}
+		var jux, ors, nots, grp []gen.Tok
+		for i := 0; i < n; i++ {
+			jux = append(jux, wa)
+			if i > 0 {
+				ors = append(ors, kor)
+			}
+			ors = append(ors, wa)
+			nots = append(nots, knot, gen.Sym("("))
+			grp = append(grp, gen.Sym("("))
+		}
+		nots, grp = append(nots, wa), append(grp, wa)
+		for i := 0; i < n; i++ {
+			nots, grp = append(nots, gen.Sym(")")), append(grp, gen.Sym(")"))
+		}
+		for _, tk := range [][]gen.Tok{jux, ors, nots, grp} {
+			run("size-sweep", TokCase{Toks: tk, DF: "dflt"})
+		}
+	}
+
 	pool := gen.FullAlphabet()
 	st.Rapid(t, "printed-and-mutated", cfg.N(40000, 3000000), func(rt *rapid.T) {
 		tree := gen.GenTree(gen.ParseCfg).Draw(rt, "tree")
